@@ -24,7 +24,7 @@ def plan(tier, seed):
         out += [
             ("composite-0", 8, [("E5", {"with_typename": False, "kind": "request"}), "E1", "E3", ("E3", {"deep": True}), "E8", ("E6", {"both": True})]),
             ("composite-1", 10, [("E5", {"with_typename": False, "kind": "notification", "dollar": True}), "E2", "E4", "E8", ("E6", {"both": True}), ("E6", {"both": True})]),
-            ("composite-3", 6, [("E3", {"own": 0}), ("E5", {"kind": "notification", "with_typename": True, "params_last_new": True}), ("E3", {"own": 0}), ("E5", {"kind": "request", "with_typename": True, "params_last_new": True}), "E9", "E10"]),
+            ("composite-3", 6, [("E3", {"own": 0}), ("E5", {"kind": "notification", "with_typename": True, "params_last_new": True}), ("E3", {"own": 0}), ("E5", {"kind": "request", "with_typename": True, "params_last_new": True}), "E9", "E10", "E14", "E5_names"]),
             ("composite-4", 8, [("E8", {"mode": "optionality"}), ("E8", {"mode": "nullable"}), ("E8", {"mode": "literal"}), ("E8", {"mode": "denull"}), ("E8", {"mode": "denull"}), "E11", "E11", "E13"]),
             ("composite-5", 2, ["E12", ("E5", {"kind": "request", "with_typename": True, "enum_result": True})]),
             ("composite-6", 9, [("E12", {"static": False}), ("E5", {"kind": "request", "with_typename": False}), ("E5", {"kind": "request", "with_typename": False, "unicode_method": True}), ("E5", {"kind": "notification", "with_typename": False}), ("E5", {"kind": "notification", "with_typename": False, "unicode_method": True}), "E4", ("E4", {"hostile": True}), "E4", ("E8", {"mode": "optionality"})]),
@@ -46,6 +46,8 @@ def plan(tier, seed):
                 forced += [("E12", {"static": False}), ("E5", {"with_typename": False, "kind": "request"}), ("E5", {"with_typename": False, "kind": "request"}), ("E4", {"hostile": True})]
             if k % 5 == 3:
                 forced += [("E3", {"own": 0}), ("E5", {"kind": "notification", "params_last_new": True})]
+            if k % 6 == 4:
+                forced += ["E14", "E5_names"]
             out.append(("composite-%d" % k, [2, 4, 8, 12][k % 4], forced))
     return out
 
@@ -187,6 +189,18 @@ def one_model(job):
         mm17 = MM(doc, open_extra=())
         env = c17.envelopes(mm17)
         n = 0
+        # the vectors are looked up BY CLASS NAME in the generated Python package (tests/python): every
+        # vector's class must be defined there
+        pyclasses = None
+        if outs["python"].rc == 0:
+            import re as _re
+
+            src = open(os.path.join(outs["python"].outdir, "lsprotocol", "types.py"), encoding="utf-8").read()
+            pyclasses = set(_re.findall(r"^class (\w+)", src, _re.M))
+            vec_classes = {m_.group(1) for m_ in (c17.NAME_RE.match(fn) for fn in os.listdir(outs["testdata"].outdir)) if m_}
+            missing = sorted(vec_classes - pyclasses)
+            if missing:
+                fail("C17 does not hold for the evolved model|vectors name a class the generated Python package does not define", {"classes": missing[:5]})
         for fn in sorted(os.listdir(outs["testdata"].outdir)):
             m = c17.NAME_RE.match(fn)
             if not m:
